@@ -830,7 +830,7 @@ theorem table_null_key_long_step (o : Opts) (t : Tok) (s' : PS) (v : Val) (X : L
     (s1 : PS) (w1 : W) (acc1 : List (Str × Str × V))
     (hn : ∀ pol w, nextTok o s1 pol w = .ok (t, s') w) (hty : t.ty = .value) (hhead : t.text.head? = some colon)
     (hlen : 1 < t.text.length) (hwv : wfVal o v = true) (hf : szVal v ≤ F)
-    (hre : Feeds o (consume (trimTok s' t 1 .value).2) (valToks v ++ X)) :
+    (hre : Feeds o (consume (trimTok s' t 1 .key).2) (valToks v ++ X)) :
     ∃ s2 r, tableLoop o (F + 2) s1 acc1 acceptAll w1 = tableLoop o F s2 acc1 acceptAll { w1 with log := r :: w1.log }
       ∧ r.code = CIF_NULL_KEY ∧ Feeds o s2 X := by
   obtain ⟨vty, vtx, vts, hvt, hstart, _⟩ := valToks_head v
@@ -853,7 +853,7 @@ theorem table_null_key_long_tail (o : Opts) (t : Tok) (s' : PS) (v : Val) (epost
     (hn : ∀ pol w, nextTok o s1 pol w = .ok (t, s') w) (hty : t.ty = .value) (hhead : t.text.head? = some colon)
     (hlen : 1 < t.text.length) (hwv : wfVal o v = true) (hepost : wfEntries o epost = true)
     (hf : szVal v + szEntries epost + 3 ≤ fuel)
-    (hre : Feeds o (consume (trimTok s' t 1 .value).2) (valToks v ++ (entriesToks epost ++ (.ctable, [125]) :: X))) :
+    (hre : Feeds o (consume (trimTok s' t 1 .key).2) (valToks v ++ (entriesToks epost ++ (.ctable, [125]) :: X))) :
     ∃ s2 r, tableLoop o fuel s1 acc1 acceptAll w1
         = .ok (denoteEntries o.dia o.normKey epost acc1, s2) { w1 with log := r :: w1.log }
       ∧ r.code = CIF_NULL_KEY ∧ Feeds o s2 X := by
